@@ -305,6 +305,8 @@ def hand_families():
     add("many-substrings", "receive", lambda n: rfc4511.encode(("SearchRequest", 1, ("", 2, 0, 0, 0, False, ("sub", "a", None, tuple(b"x" for _ in range(max(1, n // 3))), None), ()), ())))
     add("garbage-high-tag", "receive", lambda n: b"\x30" + ber.length_octets(n + 3) + b"\x02\x01\x01" + b"\xbf" + b"\xff" * (n - 1) + b"\x7f")
     add("incomplete-header-run", "receive", lambda n: b"\x1f" + b"\x81" * n)
+    add("bytewise-incomplete-identifier", "receive-bytewise", lambda n: b"\x3f" + b"\xff" * n)
+    add("huge-message-id", "receive", lambda n: b"\x30" + ber.length_octets(n + 4 + len(ber.length_octets(n))) + b"\x02" + ber.length_octets(n) + b"\x7f" * n + b"\x42\x00")
     return F
 
 
